@@ -387,10 +387,28 @@ def _val_cases(tier):
 
 
 # ---- slice through the real API --------------------------------------------------------
-def _api_slice():
+def _api_slice(log_level=None):
     """A set of boundary orders placed through market.place_order in a real simulated run:
-    accepted <=> reaches the execution layer and the blotter; refused <=> VIOLATION, never sent."""
+    accepted <=> reaches the execution layer and the blotter; refused <=> VIOLATION, never sent.
+    log_level: the run is repeated with the flumine loggers raised to that level (a refusal must not depend on
+    whether its warning is logged)."""
+    import logging
     from betfairlightweight.metadata import currency_parameters
+
+    if log_level is not None:
+        lg = logging.getLogger("flumine")
+        saved = (lg.level, logging.root.manager.disable)
+        lg.setLevel(log_level)
+        logging.disable(log_level - 1)
+        try:
+            r = _api_slice(None)
+        finally:
+            lg.setLevel(saved[0])
+            logging.disable(saved[1])
+        for d in r["violations"]:
+            d["key"] = list(d["key"][:3]) + [d["key"][3] + "@loglevel"]
+            d["case"]["log_level"] = log_level
+        return r
 
     cur = currency_parameters["GBP"]
     tm = []
@@ -468,9 +486,10 @@ def run(tier):
         nc += r["n"]
         acc += r["accepted"]
         sigs.update(r["sig"])
-    r = _api_slice()
-    rep.add_violations(r["violations"])
-    nc += r["n"]
+    for lvl in (None, 40, 50):  # as configured / ERROR / CRITICAL
+        r = _api_slice(lvl)
+        rep.add_violations(r["violations"])
+        nc += r["n"]
     ph = [seq for k in (1, 2, 3) for seq in itertools.product(POLLS, repeat=k)]
     for r in core.pmap(_poll_histories, [ph[i::8] for i in range(8)], chunk=1):
         rep.add_violations(r["violations"])
@@ -581,6 +600,10 @@ def _poll_histories(seqs):
 
 def replay(rep):
     case = rep["case"]
+    if "tmpl" in case:
+        r = _api_slice(case.get("log_level"))
+        print([d["detail"] for d in r["violations"]][:3] or "no violation now")
+        return 1 if r["violations"] else 0
     if "polls" in case:
         r = _poll_histories([tuple(case["polls"])])
         print(r["violations"] or "no violation now")
@@ -594,8 +617,21 @@ def replay(rep):
         print(out or "no violation now")
         return 1 if out else 0
     if "n" in case and "price" in case:
-        print(utils.price_ticks_away(case["price"], case["n"]), "expected", case.get("expected"))
-        return 0
+        betdaq = case.get("ladder") == "BETDAQ"
+        try:
+            r = utils.price_ticks_away(case["price"], case["n"], prices=utils.BETDAQ_PRICES_FLOAT) if betdaq else utils.price_ticks_away(case["price"], case["n"])
+        except Exception as e:
+            print("raised", repr(e))
+            return 1
+        if betdaq:
+            bd = [float(x) for x in refs.betdaq_ticks(utils.BETDAQ_CUTOFFS)]
+            i = bd.index(case["price"])
+            exp = bd[min(max(i + case["n"], 0), len(bd) - 1)]
+            print(r, "expected", exp)
+            return 1 if r != exp else 0
+        exp = refs.ticks_away(refs.to_hundredths(case["price"]), case["n"])
+        print(r, "expected", exp / 100)
+        return 1 if refs.to_hundredths(r) != exp else 0
     if "ot" in case:
         _W.clear()  # fresh control instance, then the same sequence of line-ladder cases that preceded the failing one
         seq = [tuple(x[:8]) + (tuple(x[8]),) for x in case.get("prefix") or []]
